@@ -816,6 +816,15 @@ def correspondence(ctx: Ctx):
                 continue
             yield {"line": ln, "impl": (lambda a=ans: a), "nontrivial": _nontrivial(case, res), "bucket": _bucket(case, res),
                    "key": json.dumps(case, sort_keys=True)}
+            # the seed derivation on its own: file name + slice -> tuple fed to rng.seed, integer fed to srand
+            if case["level"] == "forward" and case["kind"] == "gauss" and case["use_seed"] and res.get("ok"):
+                tups = [e[1] for e in res.get("log", []) if e[0] == "seed"]
+                for b in range(min(case["B"], len(tups), len(res["calls"]))):
+                    fn = [ord(ch) for ch in str(case["filename"][b])]
+                    sl = [ord(ch) for ch in str(case["slice_no"][b])]
+                    yield {"line": "seed " + _grp([], fn, sl),
+                           "impl": (lambda a="ok " + _grp([res["calls"][b]["seed"]], tups[b] or []): a),
+                           "nontrivial": True, "bucket": "seed-derivation"}
     finally:
         if excluded:
             ctx.notes.append(f"cases excluded from the differential comparison (oracle still applies): {excluded}")
